@@ -519,3 +519,151 @@ def const_tuple(e):
     if isinstance(e, tuple) and e[0] == 'const' and isinstance(e[2], tuple) and all(isinstance(x, int) for x in e[2]):
         return e[2]
     return None
+
+
+# --------------------------------------------------------------------------- OUTPUT-BUFFERED
+
+@rule('OUTPUT-BUFFERED', ['C06'], floor=2)
+def output_buffered(ctx):
+    """Allocation clause of C06: a decoder may allocate the dictionary its input declares plus something
+    proportional to the input's length - not something proportional to the *decoded* length, which a few bytes of
+    input can make arbitrarily large. A worker of a multi-threaded reader that drains a decoder of the crate with
+    `read_to_end` into a Vec holds a whole decompressed unit (an LZIP member, everything up to the next independent
+    LZMA2 chunk) in memory: 10 KB of input, 64 KiB dictionary, > 100 MiB allocated for the first byte. Every worker
+    function of the MT readers is an instance; it passes when it hands decoded data on in bounded pieces."""
+    from rules.concurrency import worker_fns, fn_tag
+    F = ctx.facts
+    ws = [(f, sb, st) for f, sb, st in worker_fns(F) if 'reader' in f.file]
+    if not ws:
+        return ctx.anchor_missing('worker functions of the multi-threaded readers')
+    for f, sb, st in ws:
+        key = '%s:decoded-output-not-buffered-whole' % fn_tag(f)
+        prov = None
+        hit = None
+        for bi, t, c in f.calls():
+            if c.name in ('read_to_end', 'read_to_string') and t['args']:
+                prov = prov or Prov(f)
+                recv = prov.operand(t['args'][0], 0, '%d:T' % bi)
+                ty = (c.d.get('self_ty') or '') + ' ' + expr_str(recv)
+                if any(x in ty for x in ('LZMA2Reader', 'LZIPReader', 'LZMAReader', 'XZReader')):
+                    hit = (bi, ty)
+        if hit:
+            ctx.violation(key, f.loc(hit[0]), 'drains a decoder with read_to_end into a Vec: the worker (and the reorder buffer behind it) holds a whole '
+                          'decompressed unit; memory is proportional to the decoded size, which the input does not bound')
+        else:
+            ctx.ok(key, f.loc(sb), 'no read_to_end on a decoder of the crate')
+
+
+# --------------------------------------------------------------------------- INDEX-GUARD
+
+def _base_plus(e):
+    """(base_expr, k) for e = base + k with constant k >= 0 (k = 0 when e is not an addition)."""
+    x = e
+    while x[0] == 'cast':
+        x = x[-1]
+    if x[0] == 'field' and isinstance(x[1], tuple) and x[1][0] == 'bin' and x[1][1] == 'AddWithOverflow' and str(x[2]) == '0':
+        x = ('bin', 'Add', x[1][2], x[1][3])
+    if x[0] == 'bin' and x[1] == 'Add':
+        for a, c in ((x[2], x[3]), (x[3], x[2])):
+            if c[0] == 'const' and isinstance(c[2], int) and c[2] >= 0:
+                return a, c[2]
+    return x, 0
+
+
+def _is_len_of(e, vec_str):
+    x = e
+    while x[0] == 'cast':
+        x = x[-1]
+    return x[0] == 'call' and last_seg(x[1]) == 'len' and len(x[2]) == 1 and expr_str(x[2][0]).lstrip('&') == vec_str.lstrip('&')
+
+
+@rule('INDEX-GUARD', ['C06'], floor=13)
+def index_guard(ctx):
+    """Container header parsers index byte vectors whose length and whose index both come from the input
+    (`header_data[offset]` in BlockHeader::parse, `members[seq]`): every such element access in the reader files is
+    covered by a comparison with the length of the same vector that edge-dominates it - `i < len`, `i + k <= len`,
+    `i + k == len`, `i + k < len` with the accessed offset inside the compared span - and the index variable is
+    not reassigned between the comparison and the access. (Constant-length arrays are BOUNDS' business, ranges
+    RANGE-ORDER's.) A missing comparison is a panic on a crafted header."""
+    from lzlint.intervals import Intervals
+    F = ctx.facts
+    I = None
+    FILES = ('src/xz/reader.rs', 'src/xz.rs', 'src/lzip.rs', 'src/lzip/reader.rs', 'src/lzip/reader_mt.rs', 'src/lzma2_reader.rs',
+             'src/lzma_reader.rs', 'src/lzma2_reader_mt.rs')
+    n = 0
+    for f in F.fns:
+        if f.file not in FILES:
+            continue
+        prov = None
+        cnt = {}
+        for bi, t, c in f.calls():
+            if not (c.name in ('index', 'index_mut') and c.trait and last_seg(c.trait) in ('Index', 'IndexMut')):
+                continue
+            targs = c.d.get('args', [])
+            if len(targs) < 2 or targs[1] != 'usize':
+                continue
+            prov = prov or Prov(f)
+            n += 1
+            base = '%s:element-access-guarded' % (f.key if f.kind != 'closure' else f.npath)
+            cnt[base] = cnt.get(base, 0) + 1
+            key = base if cnt[base] == 1 else '%s#%d' % (base, cnt[base])
+            vec = prov.operand(t['args'][0], 0, '%d:T' % bi)
+            idx = prov.operand(t['args'][1], 0, '%d:T' % bi)
+            vs = expr_str(vec)
+            ib, ik = _base_plus(idx)
+            ibs = expr_str(ib)
+            why = None
+            for sblk, pol, cond in guards_of(f, bi, prov):
+                nc = norm_cmp(cond, pol) if cond[0] in ('bin', 'un') else None
+                if not nc:
+                    continue
+                op, a, b = nc
+                if op in ('Lt', 'Le', 'Eq') and _is_len_of(b, vs):
+                    gb, gk = _base_plus(a)
+                    if expr_str(gb) != ibs and not (ib[0] == 'const' and gb[0] == 'const'):
+                        continue
+                    if ib[0] == 'const' and gb[0] == 'const':
+                        gk, ik2 = gb[2], ib[2]
+                    else:
+                        ik2 = ik
+                    covered = (ik2 <= gk) if op == 'Lt' else (ik2 < gk)
+                    if not covered:
+                        continue
+                    # the index variable is not reassigned between the comparison and the access
+                    il = ib[1] if ib[0] == 'local' else None
+                    if il is not None:
+                        fwd = f.reach_from(f.succs(sblk), stop={bi, sblk})
+                        back = set()
+                        st_ = [bi]
+                        while st_:
+                            x_ = st_.pop()
+                            for p_ in f.pred[x_]:
+                                if p_ not in back and p_ != sblk and p_ != bi:
+                                    back.add(p_)
+                                    st_.append(p_)
+                        mid = fwd & back
+                        redefs = [d for d in f.whole_defs(il) if d[0] in mid]
+                        if redefs:
+                            continue
+                    why = 'guarded by %s %s len' % (expr_str(a)[:40], op)
+                    break
+            if why is None:
+                # index below a proven lower bound of the length (e.g. element 0 of a vector of >= 1 elements)
+                I = I or Intervals(F)
+                ln = ('call', 'core::slice::len', [vec], None)
+                x = vec
+                while x[0] in ('ref', 'deref', 'cast'):
+                    x = x[-1] if x[0] == 'cast' else x[1]
+                if x[0] == 'call' and last_seg(x[1]) == 'from_elem' and len(x[2]) == 2:
+                    lv = I.eval(f, bi, x[2][1], 0, None, frozenset())
+                    iv = I.eval(f, bi, idx, 0, None, frozenset())
+                    if iv.hi < lv.lo and not iv.prop:
+                        why = 'index %r below the smallest possible length %r of the vector' % (iv, lv)
+            if why:
+                ctx.ok(key, f.loc(bi), '%s[%s]: %s' % (vs[:30], expr_str(idx)[:40], why))
+            else:
+                ctx.violation(key, f.loc(bi), 'element access %s[%s]: no comparison of the index with the length of this vector dominates it '
+                              '(index and length both derive from the input): index out of bounds panic on a crafted header'
+                              % (vs[:40], expr_str(idx)[:50]))
+    if not n:
+        ctx.anchor_missing('dynamic element accesses in the reader files')
